@@ -7,6 +7,12 @@
 //                                      re-initialised by the next case's init function WITHOUT lzma_end in between (the
 //                                      previous case ended in success, an error, or was abandoned mid-stream);
 //                                      results must equal the fresh-handle results                -> "ok <n>"
+//   slice 0 | slice k <n> | slice c <o1> [<o2> ...] | slice r <seed>                          -> "ok"
+//                                      how the input of every following lzma_stream case is fed: 0 = all at once with
+//                                      LZMA_FINISH (default); k = pieces of <n> bytes; c = cut at the given absolute
+//                                      offsets (a cut at the end gives an empty final piece); r = seeded random pieces.
+//                                      All pieces but the last are fed with LZMA_RUN until consumed, the last with
+//                                      LZMA_FINISH. The verdict must not depend on this (lzma_stream_buffer_decode ignores it).
 //   one    <api> <flags> w             decode the base file as it is              -> "w <res>"
 //   one    <api> <flags> f <bit>       flip bit <bit> (bit k of byte k/8 is 1<<(k%8)) -> "f<bit> <res>"
 //   one    <api> <flags> t <len>       keep only the first <len> bytes           -> "t<len> <res>"
@@ -101,6 +107,10 @@ static void note(result *r, int code)
 		snprintf(r->notices + l, sizeof(r->notices) - l, l ? ",%d" : "%d", code);
 }
 
+static int g_slice_kind;                   // 0 whole, 1 fixed piece size, 2 explicit cuts, 3 random
+static size_t g_slice_n;
+static size_t g_slice_cuts[16]; static int g_slice_ncuts;
+static uint64_t g_slice_seed, g_slice_counter;
 static bool g_reuse;                       // see the `reuse` op
 static lzma_stream g_strm = LZMA_STREAM_INIT;
 
@@ -133,11 +143,57 @@ static void run_stream_api(const char *api, uint32_t flags, const uint8_t *in, s
 	if (ret != LZMA_OK) { r->ret = (int)ret; if (!g_reuse) lzma_end(&strm); return; }
 	// A zero-length buffer still needs a non-NULL pointer for lzma_code() not to complain; use a valid address.
 	static const uint8_t empty[1] = {0};
-	strm.next_in = n ? in : empty;
-	strm.avail_in = n;
 	strm.next_out = g_out;
 	strm.avail_out = OUTCAP;
 	int fin = 102;
+	size_t fed = 0;          // bytes handed to the decoder in earlier pieces
+	if (g_slice_kind != 0 && n > 0) {
+		// all pieces but the last: LZMA_RUN until the piece is consumed
+		uint64_t rs = g_slice_seed * UINT64_C(6364136223846793005) + (++g_slice_counter) * UINT64_C(1442695040888963407) + n;
+		int ci = 0;
+		while (fed < n) {
+			size_t len;
+			if (g_slice_kind == 1) {
+				len = g_slice_n ? g_slice_n : 1;
+			} else if (g_slice_kind == 2) {
+				while (ci < g_slice_ncuts && g_slice_cuts[ci] <= fed) {
+					if (g_slice_cuts[ci] == fed && fed == n) break;
+					++ci;
+				}
+				if (ci >= g_slice_ncuts || g_slice_cuts[ci] > n) break;      // the rest is the final piece
+				len = g_slice_cuts[ci] - fed;
+				++ci;
+			} else {
+				rs = rs * UINT64_C(6364136223846793005) + UINT64_C(1442695040888963407);
+				static const size_t choices[] = { 1, 1, 2, 3, 4, 5, 7, 8, 12, 13, 31, 64, 257 };
+				len = choices[(rs >> 33) % (sizeof(choices) / sizeof(choices[0]))];
+				if ((rs >> 20) % 7 == 0) break;                              // the rest is the final piece
+			}
+			if (len >= n - fed) {
+				if (g_slice_kind != 2 || len > n - fed) break;              // last piece is fed with LZMA_FINISH below
+				// an explicit cut exactly at the end: feed everything with LZMA_RUN, then an empty LZMA_FINISH piece
+			}
+			strm.next_in = in + fed;
+			strm.avail_in = len;
+			for (int it = 0; it < 10000 && strm.avail_in > 0; ++it) {
+				ret = lzma_code(&strm, LZMA_RUN);
+				if (ret == LZMA_OK) {
+					if (strm.avail_out == 0) { fin = 100; goto done; }
+					continue;
+				}
+				if (ret == LZMA_NO_CHECK || ret == LZMA_UNSUPPORTED_CHECK || ret == LZMA_GET_CHECK) {
+					note(r, (int)ret);
+					continue;
+				}
+				fin = (int)ret;
+				goto done;
+			}
+			if (strm.avail_in > 0) goto done;   // 10000 calls without consuming the piece: fin stays 102
+			fed += len;
+		}
+	}
+	strm.next_in = (n - fed) ? in + fed : empty;
+	strm.avail_in = n - fed;
 	for (int it = 0; it < 10000; ++it) {
 		ret = lzma_code(&strm, LZMA_FINISH);
 		if (ret == LZMA_OK) {
@@ -151,6 +207,7 @@ static void run_stream_api(const char *api, uint32_t flags, const uint8_t *in, s
 		fin = (int)ret;
 		break;
 	}
+done:
 	r->ret = fin;
 	r->consumed = (size_t)strm.total_in;
 	r->outlen = (size_t)strm.total_out;
@@ -227,6 +284,18 @@ int main(void)
 			free(g_orig);
 			g_orig = hp_hex(l.tok[1], &g_orig_len);
 			printf("ok %zu\n", g_orig_len);
+		} else if (!strcmp(op, "slice") && l.ntok >= 2) {
+			const char *k = l.tok[1];
+			g_slice_ncuts = 0;
+			if (!strcmp(k, "0")) g_slice_kind = 0;
+			else if (!strcmp(k, "k") && l.ntok == 3) { g_slice_kind = 1; g_slice_n = (size_t)hp_u64(l.tok[2]); }
+			else if (!strcmp(k, "c") && l.ntok >= 3) {
+				g_slice_kind = 2;
+				for (int i = 2; i < l.ntok && g_slice_ncuts < 16; ++i)
+					g_slice_cuts[g_slice_ncuts++] = (size_t)hp_u64(l.tok[i]);
+			} else if (!strcmp(k, "r") && l.ntok == 3) { g_slice_kind = 3; g_slice_seed = hp_u64(l.tok[2]); g_slice_counter = 0; }
+			else { printf("bad-op\n"); continue; }
+			printf("ok\n");
 		} else if (!strcmp(op, "reuse") && l.ntok == 2) {
 			g_reuse = hp_u64(l.tok[1]) != 0;
 			if (!g_reuse) { lzma_end(&g_strm); }
